@@ -280,8 +280,9 @@ def load_known():
 
 
 def tags_of_failure(f, meta, safety_tags):
-    if not f['clause'] and f['kind'] in ('assertion', 'invariant'):
-        # an assertion of a proof block, or a loop invariant, that carries no clause marker: it serves the clauses of its function
+    if not f['clause'] and f['kind'] in ('assertion', 'invariant', 'postcondition'):
+        # an assertion of a proof block, a loop invariant, or the postcondition of a closure, that carries no clause marker: it serves
+        # the clauses of its function
         # (Verus assumes it after the failure, so the postcondition it was there for is never reported)
         t = []
         for c in meta['clauses'].values():
